@@ -190,6 +190,25 @@ example : (!![2, 1, 0; 1, 3, 1; 0, 1, 4] : Matrix (Fin 3) (Fin 3) ℚ).det ≠ 0
 example : (!![0, 1; 1, 0] : Matrix (Fin 2) (Fin 2) ℚ).det ≠ 0 := by
   rw [Matrix.det_fin_two]; simp
 
+/-- round five: with `DUNE_FMatrix_WITH_CHECKING` the closed forms of `solve` (n = 1, 2, 3) and `invert` (n = 1, 2) throw
+FMatrixError when the magnitude of one quantity is below `FMatrixPrecision<>::absolute_limit()`; the translator emits that
+quantity (`Gen.*Checked`, with the locals as they are bound at the test) and this theorem ties it to the determinant.  The
+harness does not compile that configuration, so a test of anything else (say of the reciprocal of the determinant, which
+rejects well-conditioned matrices of large determinant) can only be seen here. -/
+theorem tie_checked_quantity (m00 m01 m02 m10 m11 m12 m20 m21 m22 b0 b1 b2 : K) :
+    Gen.solve1Checked m00 b0 = Gen.det1 m00 ∧
+    Gen.solve2Checked m00 m01 m10 m11 b0 b1 = Gen.det2 m00 m01 m10 m11 ∧
+    Gen.solve3Checked m00 m01 m02 m10 m11 m12 m20 m21 m22 b0 b1 b2
+      = Gen.det3 m00 m01 m02 m10 m11 m12 m20 m21 m22 ∧
+    Gen.invert1Checked m00 = Gen.det1 m00 ∧
+    Gen.invert2Checked m00 m01 m10 m11 = Gen.det2 m00 m01 m10 m11 := by
+  refine ⟨?_, ?_, ?_, ?_, ?_⟩
+  · simp only [Gen.solve1Checked, Gen.det1] <;> ring
+  · simp only [Gen.solve2Checked, Gen.det2] <;> ring
+  · simp only [Gen.solve3Checked, Gen.det3] <;> ring
+  · simp only [Gen.invert1Checked, Gen.det1] <;> ring
+  · simp only [Gen.invert2Checked, Gen.det2] <;> ring
+
 end Closed
 
 /-! ## Part 2: the LU path (`luDecomposition` with its three functors, back substitution, inverse assembly) -/
